@@ -620,7 +620,17 @@ def py_isinstance(I, obj, cls):
                 return True
             if n in ("list", "tuple", "dict") and type(obj).__name__ == n:
                 return True
+        elif isinstance(c, ExternalClass):
+            if isinstance(obj, Model) and c.name in obj.py_classes:
+                return True
     return False
+
+
+class ExternalClass:
+    """a class of a library, known by name only (isinstance against the py_classes of models)"""
+
+    def __init__(self, name):
+        self.name = name
 
 
 def py_range(I, *args):
